@@ -35,6 +35,27 @@ CLAIMS = {
  "C20": ("own answer queued before the sibling-waking close, 'done' only with an answer; gate select before the secondary's Exec; hold select before a standby answer; <=1 send per path and capacity >= workers; caller loop bound / nil skipping / ctx / failure last; workers on copies taken before go with the caller's deadline. Not decided: timing relative to the threshold.",
          TRUST + "Go channel FIFO and close semantics.",
          "channel/select structure analysis over SSA (dominance, case-body reachability, path counting)"),
+ "C01": ("waiter-table insert only on the absent edge of a same-key lookup in one locked region; reader dispatch by the id at offset 0 of the very buffer handed over, unclaimed buffers released; exchangers never write the caller's query and restore the caller's id on every returned reply; wire id = registered id at the framing's id offset; waiter removed on every exit; idle connections handed out once and re-idled only after their reply; module-wide pooled-buffer typestate. Not decided: which reply a concrete interleaving delivers.",
+         TRUST + "16-bit id wrap assumption of the property itself.",
+         "SSA guard/dominance rules + value provenance + buffer typestate (reachability after release) + lockset"),
+ "C05": ("admission table expanded over all branches (lifetimes per rcode, cache lifetime = message lifetime except lazy non-empty NOERROR, TC / non-positive refused, one clock reading); store sites; guarded TTL subtraction; hit path guards and stale TTL constant; refresh only inside singleflight, key forgotten after the refresh; expiry guards; OPT-skipping TTL loops. Not decided: clock arithmetic at boundaries.",
+         TRUST + "x/sync/singleflight de-duplicates per key until Forget.",
+         "phi-expansion of lifetime values into a per-rcode case table + guard/dominance rules"),
+ "C06": ("errors returned unchanged; walkers/nodes immutable after construction; continuation = (index+1, same chain, same jump-back); accept/reject/return/goto/jump call-graph facts; negation and its parsing; short-circuit to the next rule; end-of-chain jump-back. Not decided: equivalence with a reference interpreter over all programs.",
+         TRUST + "plugins honour the Executable contracts.",
+         "who-writes index (immutability) + SSA structure rules on the interpreter loop and built-ins"),
+ "C07": ("ctx case in every blocking select; close-notification / dial-finished wake-ups; I/O error => close on every path; close-once with error stored first; transport Close (flag, all conns, dials, entry checks, late dials); goroutine termination table; bounded deadlines incl. the reader not overriding the waiting-reply deadline; dialled-connection typestate; wait-group accounting. Not decided: actual timing.",
+         TRUST + "net.Conn deadlines interrupt blocked I/O; sync.Once.",
+         "select/channel structure analysis + must-pass-through on the CFG + path-enumerating typestate"),
+ "C08": ("retry re-entered exactly under {failed, not new, counter below bound[, ctx live]} with no narrowing condition; <= 4 attempts; is-new flag coincides with the dial; dead connections removed when detected / on close. Not decided: whether the retry succeeds.",
+         TRUST,
+         "guard-set analysis of the loop back edge + phi case expansion"),
+ "C10": ("stored message only Copy()'d / Pack()'d; only fresh messages stored; deep-copy helper uses dns.Copy into fresh slices of a new message; hit gets the query id before the next chain step; lookup returns copies; refresh on a context copy taken before the goroutine. Isolation then holds by construction.",
+         TRUST + "dns.Msg.Copy / dns.Copy are deep copies.",
+         "use-def discipline on the stored-message field + alias (source-derived slice) propagation in the copy helper"),
+ "C17": ("TCP exchange exactly under msgTruncated(UDP reply) with its results returned unchanged; non-truncated reply returned as is with no TCP call reachable; msgTruncated == bit 1 of byte 2; same dial address value; same query. Whole property up to the DNS header layout.",
+         TRUST,
+         "CFG guard/return-shape rules + expression shape of the TC test"),
 }
 NA = {}
 
